@@ -121,25 +121,33 @@ type sched struct {
 	// re-delivery state (scheduler goroutine only)
 	dupProfile int
 	dupAll     bool // development aid: also re-deliver one-way p2p envelopes, not only /bcast/msg
-	dupBudget  int  // max re-deliveries per receiver
-	dupUsed    map[int]int
-	recs       []*dupRec
-	redo       []redoItem
-	classCache map[*fakenet.Envelope]string
-	tgtB, tgtC int
-	tgtA       int
-	tgtPhase   int // 0 = C's broadcast to B is kept back, 1 = released
-	tgtSince   time.Time
-	dupDone    atomic.Int64
-	ctick      atomic.Int64    // logical clock of handler entry/exit (overlap measurement)
-	msgDone    map[[3]int]bool // {to, round, from}: that broadcast message was handled (scheduler goroutine only)
-	p2pDone    map[[2]int]bool // {to, from}: the FROST round-1 p2p share was handled
-	burst      int             // copies per concurrent group at the targeted receiver (0: 1..3 as everywhere)
-	msgDur     time.Duration   // running estimate of one broadcast handler execution (scheduler goroutine only)
-	slow       *slowPlan       // slow-link mode
-	late       *latePlan       // late-deal mode
-	ann        *annPlan        // late-announcement mode
-	phaseP     time.Duration   // real phase duration of the ceremony (slow-link / late-deal bookkeeping when > 0)
+	// staleDeals (pedersen, >= 2 validators, re-delivery allowed): while a node collects the deal
+	// bundles of validator k+1, a byte-identical copy of another dealer's deal bundle of validator k
+	// reaches it again (a late retransmission: p2p.Sender re-sends after stream errors). A copy of an
+	// earlier run must stay filtered out whatever run the receiver is in (seeded change C11-r8).
+	staleDeals     bool
+	staleDealsSent int
+	dealCount      map[[2]int]int     // (to, from) -> deal bundles delivered so far
+	lastDeal       map[[2]int]*dupRec // (to, from) -> the last delivered deal bundle
+	dupBudget      int                // max re-deliveries per receiver
+	dupUsed        map[int]int
+	recs           []*dupRec
+	redo           []redoItem
+	classCache     map[*fakenet.Envelope]string
+	tgtB, tgtC     int
+	tgtA           int
+	tgtPhase       int // 0 = C's broadcast to B is kept back, 1 = released
+	tgtSince       time.Time
+	dupDone        atomic.Int64
+	ctick          atomic.Int64    // logical clock of handler entry/exit (overlap measurement)
+	msgDone        map[[3]int]bool // {to, round, from}: that broadcast message was handled (scheduler goroutine only)
+	p2pDone        map[[2]int]bool // {to, from}: the FROST round-1 p2p share was handled
+	burst          int             // copies per concurrent group at the targeted receiver (0: 1..3 as everywhere)
+	msgDur         time.Duration   // running estimate of one broadcast handler execution (scheduler goroutine only)
+	slow           *slowPlan       // slow-link mode
+	late           *latePlan       // late-deal mode
+	ann            *annPlan        // late-announcement mode
+	phaseP         time.Duration   // real phase duration of the ceremony (slow-link / late-deal bookkeeping when > 0)
 	// transport-fault mode
 	flt      *faultPlan
 	fltSince time.Time     // C's broadcast first seen held
@@ -695,6 +703,32 @@ func (s *sched) idle() {
 func (s *sched) deliver(e *fakenet.Envelope) {
 	if !s.net.Take(e) {
 		return
+	}
+	if s.staleDeals && !e.Duplex && s.class(e) == "p2p:deal_bundle" {
+		to, from := s.idx[e.To], s.idx[e.From]
+		if s.dealCount == nil {
+			s.dealCount, s.lastDeal = map[[2]int]int{}, map[[2]int]*dupRec{}
+		}
+		n := s.dealCount[[2]int{to, from}] // e is `from`'s deal bundle of validator n
+		if n >= 1 && (s.phaseP > 0 || s.rng.Intn(2) == 0) {
+			var cands []int
+			for k := range s.lastDeal {
+				if k[0] == to && k[1] != from && s.dealCount[k] == n {
+					cands = append(cands, k[1]) // its validator-n deal has not reached `to` yet: its last one is of validator n-1
+				}
+			}
+			sort.Ints(cands)
+			if len(cands) > 0 {
+				a := cands[s.rng.Intn(len(cands))]
+				if s.deliverClone(s.lastDeal[[2]int{to, a}], "targeted") {
+					s.mu.Lock()
+					s.staleDealsSent++
+					s.mu.Unlock()
+				}
+			}
+		}
+		s.dealCount[[2]int{to, from}] = n + 1
+		s.lastDeal[[2]int{to, from}] = &dupRec{env: e, class: "p2p:deal_bundle", from: from, to: to}
 	}
 	var slowWhich string
 	var slowSent time.Time
